@@ -186,7 +186,8 @@ type c08Result struct {
 
 func progressWriter(path string) func(s string) {
 	return func(s string) {
-		os.WriteFile(path, []byte(s), 0644)
+		os.WriteFile(path+".tmp", []byte(s), 0644)
+		os.Rename(path+".tmp", path)
 	}
 }
 
